@@ -113,7 +113,9 @@ type Server struct {
 	FuncLog   [][]byte // FUNCTION RESTORE payloads
 	ScriptLog [][]byte
 	// GenericWrites: business commands (first argument not a bookkeeping key) are logged and answered +OK without interpretation.
-	GenericWrites  bool
+	GenericWrites bool
+	// InfoHook, when set, answers INFO <section> (section lower case, "" = all); nil result falls through to the built-in reply.
+	InfoHook       func(section string) []byte
 	LuaUnsupported int
 	// DropReplyOf: when set and it returns true for a request, the request is executed but the connection is closed instead of replying.
 	DropReplyOf func(conn int, cmd string, args [][]byte) bool
